@@ -23,8 +23,8 @@ PROP = {
         ],
         "runs": [{
             "component": "wsdecode",
-            "quick": {"gen": [(2500, 40)], "enum": [(8,)]},
-            "thorough": {"gen": [(20000, 40)], "enum": [(12,)]},
+            "quick": {"gen": [(8000, 40)], "enum": [(8,)]},
+            "thorough": {"gen": [(50000, 40)], "enum": [(12,)]},
         }],
         "rule": "scripts = NewFrameCodec over a fresh ByteBuffer (max from {0,1,125,126,127,200,300,600,1000,65535,65536,70000,2^19,-1,-5,2^31}, "
                 "optional Reserve) followed by a byte string made of frames in every length class relative to max "
